@@ -464,8 +464,12 @@ def _documented_defaults(env, cfg):
               and ex2._imputer.storage_object is ex2._storage)
     env.claim('second_explainer_starts_with_an_empty_background', len(ex2._storage.get_data()[0]) == 0,
               detail=f"{len(ex2._storage.get_data()[0])} rows observed by another explainer")
-    mine = {id(v) for v in vars(ex).values() if hasattr(v, '__dict__') and not callable(v)}
-    shared = [a for a, v in vars(ex2).items() if hasattr(v, '__dict__') and not callable(v) and id(v) in mine]
+    from ixai.storage.base import BaseStorage
+    from ixai.imputer.base import BaseImputer
+    from ixai.utils.tracker.base import Tracker
+    stateful = (BaseStorage, BaseImputer, Tracker)      # immutable shared configuration objects are nobody's business
+    mine = {id(v) for v in vars(ex).values() if isinstance(v, stateful)}
+    shared = [a for a, v in vars(ex2).items() if isinstance(v, stateful) and id(v) in mine]
     env.claim('second_explainer_shares_no_stateful_attribute', not shared, detail=f"shared: {shared}")
     if incremental:
         env.claim('default_smoothing_alpha', ex._smoothing_alpha == 0.001)
